@@ -4,7 +4,7 @@ c11_tie = importlib.util.module_from_spec(_spec); _spec.loader.exec_module(c11_t
 T = "GeomV.C11."
 CFG = {
     "id": "C11",
-    "lean_modules": ["GeomV.C11.Proofs", "GeomV.C11.ProofsArith", "GeomV.C11.ProofsFill", "GeomV.C11.ProofsHeap"] + c11_tie.C11_TIES,
+    "lean_modules": ["GeomV.C11.Proofs", "GeomV.C11.ProofsArith", "GeomV.C11.ProofsFill", "GeomV.C11.ProofsHeap", "GeomV.C11.ProofsParent"] + c11_tie.C11_TIES,
     "exe": "geomv_c11",
     "go_cmd": "c11",
     "stages": ["go:gen", "go:impl", "lean:judge"],
@@ -19,6 +19,12 @@ CFG = {
         # wave 2: the POINTER-LEVEL model (Heap.lean: arena of nodes, stored parent fields, nil dereferences as faults, fuel recursion)
         # refines the functional model
         "Heap.C11_heap_search_refines", "Heap.C11_heap_findLeaf_refines", "Heap.C11_heap_split_refines",
+        # wave 3: the parent-link invariant ParentOK of the arena model (ParentView.lean / ProofsParent.lean): established by NewTree, preserved by each
+        # primitive arena write pattern (entry removal with detached orphans, entry append + child.parent = holder, node allocation, root split,
+        # root collapse) and by the arena collapse loop; implies the hook's audit.  NOT yet composed along insert/Delete as wholes.
+        "Heap.C11_heap_parent_init", "Heap.C11_heap_parent_collapse", "Heap.C11_heap_parent_audit", "Heap.C11_heap_parent_reach",
+        "Heap.VJ.shrink", "Heap.VJ.adopt", "Heap.VJ.adopt_noset", "Heap.VJ.alloc", "Heap.VJ.reroot", "Heap.VJ.collapse",
+        "Heap.view_setEntries", "Heap.view_setParent", "Heap.view_alloc",
         # T1: definitions regenerated from index/rtree/{geom,rtree}.go of the tree under test = the model's
         "C11_tie_size", "C11_tie_margin", "C11_tie_containsPoint", "C11_tie_containsRect", "C11_tie_intersect",
         "C11_tie_enlarge", "C11_tie_initBoundingBox", "C11_tie_boundingBox", "C11_tie_computeBoundingBox",
